@@ -27,7 +27,10 @@ def gen_status_spec(rng, op, prefer_pending=False):
     if prefer_pending and k < 55:
         return {"t": "int", "v": 0xFF00}
     if k < 55:
-        return {"t": "int", "v": rng.choice(pool)}
+        d = {"t": "int", "v": rng.choice(pool)}
+        if rng.randrange(4) == 0:
+            d["enum"] = True      # the same value as an IntEnum member (pynetdicom.status.Status style): still an int
+        return d
     if k < 65:
         return {"t": "int", "v": rng.choice(UNKNOWN_STATUS)}
     if k < 70:
@@ -90,6 +93,10 @@ def mk_status(spec):
 
     t = spec["t"]
     if t == "int":
+        if spec.get("enum") and 0 <= spec["v"] <= 0xFFFF:
+            import enum
+
+            return enum.IntEnum("HandlerStatus", {"VALUE": spec["v"]}).VALUE
         return spec["v"]
     if t == "ds":
         ds = Dataset()
